@@ -3,14 +3,21 @@
 property oracle for C13 written from the property statement (it never looks at the model).
 
 ops (one per line)
-  new d bfsize ntables            create SBT(GraphFactory(1, bfsize, ntables), d=d)
-  ins id h1 h2 ...                insert a scaled=1 sketch holding exactly these hashes, named id
+  new d bfsize ntables [scaled]   create SBT(GraphFactory(1, bfsize, ntables), d=d); sketches are made with this scaled (default 1)
+  ins id h1 h2 ...                insert a sketch (tree's scaled) fed these hashes (those above its max_hash are dropped), named id
   dump                            per position: kind, and for internal nodes min_n_below, n_occupied,
                                   covered/total leaves below
   probe h1 h2 ...                 per internal node: Nodegraph.matches of these hashes
   saveload sp seed ver cache      save(sparseness=sp/1000) to a temp dir, load (index version ver,
                                   cache_size=cache or None); the loaded tree replaces the tree
-  search c thr h1 h2 ...          tree.search(query, threshold=thr/1000, do_containment=c)
+  search c thr h1 h2 ...          tree.search(query, threshold=thr/1000, do_containment=c), query at the tree's scaled
+  searchs c thr sq h1 h2 ...      the same with a query of scaled sq (finer: find downsamples the query; coarser: find
+                                  downsamples every leaf and scores internal nodes with size 1); c = 0 Jaccard,
+                                  1 containment, 2 max containment
+  select ksize scaled cont        tree.select(ksize=, scaled=, containment=)  -> ok | err ValueError
+  (saveload: ver 1 and 2 are the legacy containers -- list / dict of relative file names, no factory or storage
+   record, no metadata on internal nodes, root filter file uncompressed; generated with sparseness 0 and table
+   requests that survive the loader's rounding of the first table size to the hundred)
   rebuild pos | fillint | fillmin _rebuild_node(pos) | _fill_internal() | _fill_min_n_below()
   rebuildm k                      _rebuild_node(p) for the (k mod n)-th of the n positions in _missing_nodes
                                   (ascending); nothing when there are none.  (`rebuild pos` is generated
@@ -31,21 +38,40 @@ BF_BIG = [100000]
 SPARSE = [0, 300, 500, 900, 1000]
 
 
+def max_hash(scaled):
+    """sourmash.minhash._get_max_hash_for_scaled"""
+    if scaled == 0:
+        return 0
+    if scaled == 1:
+        return U64
+    return min(int(round(U64 / scaled, 0)), U64)
+
+
+SCALED_T = [1, 1, 1, 1, 2, 4, 100, 1000]
+LEGACY_BF = [100, 1000, 4000, 10000]
+
+
 def draw(seed, pos):
     return 1 + (pos * 7919 + seed * 104729 + 17) % 999
 
 
-def _pool(rng, n):
+def _pool(rng, n, st=1):
     pool = set()
-    cands = [0, 1, 2, U64, U64 - 1, 2 ** 63, 2 ** 63 - 1, 2 ** 32, 997, 991, 983 * 977]
+    mh = max_hash(st)
+    cands = [0, 1, 2, U64, U64 - 1, 2 ** 63, 2 ** 63 - 1, 2 ** 32, 997, 991, 983 * 977,
+             mh, mh - 1, mh + 1, max_hash(2 * st), max_hash(2 * st) + 1, max_hash(8 * st), mh // 3]
     while len(pool) < n:
         r = rng.random()
         if r < 0.25:
-            pool.add(rng.choice(cands))
+            v = rng.choice(cands)
         elif r < 0.5:
-            pool.add(rng.randint(0, 200))
+            v = rng.randint(0, 200)
+        elif r < 0.9:
+            v = rng.randint(0, mh)
         else:
-            pool.add(rng.randint(0, U64))
+            v = rng.randint(0, U64)
+        if 0 <= v <= U64:
+            pool.add(v)
     return sorted(pool)
 
 
@@ -63,7 +89,7 @@ def _sketch(rng, pool, big=False):
     return sorted(rng.sample(pool, k))
 
 
-def _query(rng, pool, sketches):
+def _query(rng, pool, sketches, st=1):
     if sketches and rng.random() < 0.7:
         base = list(rng.choice(sketches))
         if base and rng.random() < 0.5:
@@ -73,9 +99,18 @@ def _query(rng, pool, sketches):
         hs = sorted(set(base))
     else:
         hs = sorted(rng.sample(pool, min(len(pool), rng.randint(0, 6))))
-    c = rng.randint(0, 1)
     thr = rng.choice([0, 1, 100, 100, 250, 333, 500, 500, 667, 1000])
-    return f"search {c} {thr} " + " ".join(str(h) for h in hs)
+    if rng.random() < 0.45:
+        return f"search {rng.randint(0, 1)} {thr} " + " ".join(str(h) for h in hs)
+    c = rng.choice([0, 1, 2, 2])
+    r = rng.random()
+    if r < 0.3:
+        sq = st
+    elif r < 0.7:
+        sq = st * rng.choice([2, 2, 3, 8, 1000])          # coarser than the tree
+    else:
+        sq = max(1, st // rng.choice([2, 4, 1000]))       # finer (or equal)
+    return f"searchs {c} {thr} {sq} " + " ".join(str(h) for h in hs)
 
 
 def gen_case(rng, flavour, thorough=False):
@@ -85,14 +120,24 @@ def gen_case(rng, flavour, thorough=False):
         flavour, thorough = flavour[:-1], True
     lines = []
     d = rng.choice([2, 2, 2, 3, 3, 4, 5, 7, 10, rng.randint(2, 10)])
-    if flavour == "small":
+    legacy_ver = 0
+    if flavour == "legacy":
+        legacy_ver = rng.choice([1, 2, 2])
+        if legacy_ver == 1:
+            d = 2
+        bf = rng.choice(LEGACY_BF)
+    elif flavour == "small":
         bf = rng.choice(BF_SMALL)
     elif flavour == "big":
         bf = rng.choice(BF_BIG)
     else:
         bf = rng.choice(BF_SMALL + BF_MID * 4)
     nt = rng.choice([4, 4, 4, 4, 1, 2, 3])
-    lines.append(f"new {d} {bf} {nt}")
+    st = rng.choice(SCALED_T)
+    if rng.random() < 0.15:
+        lines.append(f"new {d} {bf} {nt}" + ("" if st == 1 else f" {st}"))
+        lines.append(f"select {rng.choice([21, 21, 31])} {rng.choice([0, st, 2 * st])} {rng.randint(0, 1)}")
+    lines.append(f"new {d} {bf} {nt}" + ("" if st == 1 else f" {st}"))
     hi = 60
     if thorough and flavour in ("insert", "sparse") and rng.random() < 0.3:
         hi = 300
@@ -100,8 +145,10 @@ def gen_case(rng, flavour, thorough=False):
         hi = 12
     if flavour == "small":
         hi = 25
+    if flavour == "legacy":
+        hi = 30
     n_ins = rng.randint(1, hi) if rng.random() < 0.8 else rng.randint(1, 6)
-    pool = _pool(rng, rng.randint(3, 40))
+    pool = _pool(rng, rng.randint(3, 40), st)
     sketches = []
     next_id = 0
 
@@ -121,7 +168,28 @@ def gen_case(rng, flavour, thorough=False):
     if rng.random() < 0.6:
         lines.append("probe " + " ".join(str(h) for h in rng.sample(pool, min(len(pool), 8))))
     for _ in range(rng.randint(0, 3)):
-        lines.append(_query(rng, pool, sketches))
+        lines.append(_query(rng, pool, sketches, st))
+    if rng.random() < 0.2:
+        lines.append(f"select {rng.choice([21, 21, 21, 31])} {rng.choice([0, st, 2 * st, max(1, st // 2)])} {rng.randint(0, 1)}")
+    if flavour == "legacy":
+        lines.append(f"saveload 0 {rng.randint(0, 999)} {legacy_ver} {rng.choice([0, 0, 1, 3])}")
+        lines.append("dump")
+        for _ in range(rng.randint(1, 5)):
+            r = rng.random()
+            if r < 0.4:
+                lines.append(_query(rng, pool, sketches, st))
+            elif r < 0.65:
+                lines.append("fillmin")
+            elif r < 0.8:
+                ins()
+            elif r < 0.9:
+                lines.append("fillint")
+            else:
+                lines.append("probe " + " ".join(str(h) for h in rng.sample(pool, min(len(pool), 6))))
+            if rng.random() < 0.6:
+                lines.append("dump")
+        lines.append("dump")
+        return lines
     if flavour in ("insert", "small", "big") and rng.random() < 0.6:
         lines.append("dump")
         return lines
@@ -144,7 +212,7 @@ def gen_case(rng, flavour, thorough=False):
             if flavour == "reinsert" and r < 0.45:
                 ins()
             elif r < 0.55:
-                lines.append(_query(rng, pool, sketches))
+                lines.append(_query(rng, pool, sketches, st))
             elif r < 0.70:
                 lines.append(rng.choice(["rebuild 0", "rebuild 0", f"rebuildm {rng.randint(0, 40)}"]))
             elif r < 0.80:
@@ -198,6 +266,8 @@ def context(case, upto):
     saves = [k for k in range(upto + 1) if case[k].startswith("saveload")]
     if not saves:
         return "insert-only"
+    if int(case[saves[-1]].split()[3]) <= 2:
+        return "legacy-load"
     sparse = any(int(case[k].split()[1]) > 0 for k in saves)
     if any(l.startswith("ins") for l in case[saves[0] + 1: upto + 1]):
         return "insert-after-sparse-load" if sparse else "insert-after-full-load"
@@ -205,24 +275,39 @@ def context(case, upto):
 
 
 def leaf_passes(c, thr, q, hs):
+    """the statement's own scoring: Jaccard (c=0), containment of the query (1), max containment (2)"""
     shared = len(set(q) & set(hs))
-    denom = len(q) if c else len(set(q) | set(hs))
+    if c == 1:
+        denom = len(set(q))
+    elif c == 2:
+        denom = min(len(set(q)), len(set(hs)))
+    else:
+        denom = len(set(q) | set(hs))
     return denom != 0 and shared != 0 and shared * 1000 >= thr * denom
+
+
+def as_compared(st, sq, q, hs):
+    """query (made at scaled sq) and stored sketch (at scaled st) brought to the coarser of the two"""
+    q = [h for h in q if h <= max_hash(sq)]
+    cmp_scaled = max(st, sq)
+    return [h for h in q if h <= max_hash(cmp_scaled)], [h for h in hs if h <= max_hash(cmp_scaled)]
 
 
 def oracle(case, impl):
     out = []
     d = None
-    inserted = {}          # id -> hashes, for every insert the implementation accepted
+    st = 1
+    inserted = {}          # id -> hashes retained, for every insert the implementation accepted
     for k, (op, obs) in enumerate(zip(case, impl)):
         w = op.split()
         if not w:
             continue
         if w[0] == "new" and obs.startswith("ok"):
             d = int(w[1])
+            st = int(w[4]) if len(w) > 4 else 1
             inserted = {}
         elif w[0] == "ins" and obs.startswith("ok"):
-            inserted[int(w[1])] = [int(x) for x in w[2:]]
+            inserted[int(w[1])] = [int(x) for x in w[2:] if int(x) <= max_hash(st)]
         elif w[0] == "dump" and d is not None:
             ent = parse_dump(obs)
             if ent is None:
@@ -273,12 +358,13 @@ def oracle(case, impl):
                 elif e["minn"] > ml:
                     out.append((k, "C13:min_n_below-clamp:empty-sketch",
                                 f"internal node {p} records min_n_below=1 above an empty sketch (size 0): the 0 -> 1 clamp"))
-        elif w[0] == "search" and d is not None:
+        elif w[0] in ("search", "searchs") and d is not None:
             c, thr = int(w[1]), int(w[2])
-            q = [int(x) for x in w[3:]]
+            sq = int(w[3]) if w[0] == "searchs" else st
+            q = [int(x) for x in (w[4:] if w[0] == "searchs" else w[3:])]
             if not inserted:
                 continue
-            want = sorted(i for i, hs in inserted.items() if leaf_passes(c, thr, q, hs))
+            want = sorted(i for i, hs in inserted.items() if leaf_passes(c, thr, *as_compared(st, sq, q, hs)))
             ctx = context(case, k)
             if not obs.startswith("ok"):
                 out.append((k, "C13:search-differs:" + ctx, f"search raised {obs} (linear scan finds {want[:8]})"))
